@@ -139,8 +139,34 @@ func blockOpsProg(t *rapid.T) *gen.Prog {
 	}}}}
 }
 
+// bindShapes: small programs that reach the binding code of Unmarshal with
+// unusual keys, block types and values.
+func bindShapeSource(t *rapid.T) string {
+	keys := []string{"_", "__", "a", "A", "a_", "_a", "name", "NAME", "Name", "TYPE", "b", "B_", "x__y", "_1", "a1"}
+	types := []string{"small_target", "smalltarget", "_", "t", "SmallTarget", "small__target", "x"}
+	vals := []string{"1", "\"s\"", "2.5", "true", "nil", "v", "-1", "\"\""}
+	var sb strings.Builder
+	sb.WriteString("var v\n")
+	ty := gen.Pick(t, "shapetype", types)
+	for i, n := 0, gen.Int(t, 1, 3, "nblocks"); i < n; i++ {
+		fmt.Fprintf(&sb, "def %s %s{\n", ty, gen.Pick(t, "shapename", []string{"", "\"n\" ", "\"\" "}))
+		for j, m := 0, gen.Int(t, 0, 4, "nkeys"); j < m; j++ {
+			fmt.Fprintf(&sb, "  %s = %s\n", gen.Pick(t, "shapekey", keys), gen.Pick(t, "shapeval", vals))
+		}
+		if gen.Chance(t, 30, "shapenested") {
+			fmt.Fprintf(&sb, "  def %s %s{ %s = 1 }\n", gen.Pick(t, "nestedtype", keys), gen.Pick(t, "nestedname", []string{"", "\"k\" "}), gen.Pick(t, "nestedkey", keys))
+		}
+		sb.WriteString("}\n")
+	}
+	fmt.Fprintf(&sb, "bind %s%s -> %s\n", ty, gen.Pick(t, "shapesel", []string{"", ":1", ":first", ":last", ":all"}), gen.Pick(t, "shapetgt", []string{"struct", "slice"}))
+	return sb.String()
+}
+
 func genDamaged(t *rapid.T) (src []byte, exec bool, note string) {
 	var p *gen.Prog
+	if gen.Chance(t, 15, "bindshape") {
+		return []byte(bindShapeSource(t)), true, "bind-shape"
+	}
 	if gen.Chance(t, 12, "blockops") {
 		p = blockOpsProg(t)
 		note = "block-value-operators"
